@@ -4,6 +4,7 @@
 // blocked although a Message is queued shows up as a scheduler-detected DEADLOCK (the lost-wake-up oracle).
 // VBUILD: libs=schedx
 #include "engines/schedx/schedx.h"
+#include <poll.h>
 #include "system/Thread.h"
 #include "system/SetupSystem.h"
 #include "message/Message.h"
@@ -35,6 +36,31 @@ protected:
    }
 };
 
+// An internal thread written the other documented way: it select()s on its wake-up socket (GetInternalThreadWakeupSocket(), "so that your
+// thread can block on it together with its own sockets" -- what MessageTransceiverThread does) and POLLS the queue only when that socket is
+// readable.  Such a thread depends on "a queued Message always makes the wake-up socket readable", including for Messages queued before start.
+static void WaitReadable(int fd)
+{
+   MuscleVerifHooks * h = GetMuscleVerifHooksRef();
+   if (h) (void) h->socketWait(NULL, fd, 0);   // under the scheduler: a blocking point that is enabled iff the descriptor is readable
+   else { struct pollfd p; p.fd = fd; p.events = POLLIN; p.revents = 0; (void) poll(&p, 1, -1); }
+}
+class SelectThread : public EchoThread {
+public:
+   SelectThread() : EchoThread(true) {}
+protected:
+   virtual void InternalThreadEntry()
+   {
+      const int fd = GetInternalThreadWakeupSocket().GetFileDescriptor();
+      bool keepGoing = (fd >= 0);
+      while (keepGoing) {
+         WaitReadable(fd);
+         MessageRef m; uint32 left = 0;
+         while (keepGoing && WaitForNextMessageFromOwner(m, 0, &left).IsOK()) if (MessageReceivedFromOwner(m, left).IsError()) keepGoing = false;
+      }
+   }
+};
+
 static std::string Seq(const std::vector<int> & v) { std::string s; for (size_t i = 0; i < v.size(); i++) s += verif::Fmt("%s%d", i ? "," : "", v[i]); return s; }
 
 // A compliant receiver: blocks for the next reply; B_TIMED_OUT from an untimed receive (stale signal byte, see DESIGN C11) is retried
@@ -62,15 +88,18 @@ static void CheckRun(const char * what, const std::vector<int> & sentA, const st
 
 static void Body(const Config & cfg)
 {
-   EchoThread * t = new EchoThread(cfg.sockets);
-   std::vector<int> sentA, sentB, replies; int spurious = 0;
    const std::string & v = cfg.variant;
-   if (v == "basic" || v == "prequeue" || v == "twosenders") {
+   const bool sel = (v.compare(0, 6, "select") == 0);   // select, selectprequeue, selectqueuesock (queue, allocate sockets, start), selectsockqueue (allocate sockets, queue, start)
+   EchoThread * t = sel ? new SelectThread() : new EchoThread(cfg.sockets);
+   std::vector<int> sentA, sentB, replies; int spurious = 0;
+   if (v == "basic" || v == "prequeue" || v == "twosenders" || sel) {
       int sender2 = -1;
-      if (v == "prequeue") for (int i = 1; i <= cfg.n; i++) { sentA.push_back(i); if (t->SendMessageToInternalThread(MessageRef(new Message((uint32)i))).IsError()) schedx::Fail("send-failed", "send failed"); }
+      if (v == "selectsockqueue") (void) t->GetOwnerWakeupSocket();   // demand-allocates the socket pair before anything is queued
+      if (v == "prequeue" || (sel && v != "select")) for (int i = 1; i <= cfg.n; i++) { sentA.push_back(i); if (t->SendMessageToInternalThread(MessageRef(new Message((uint32)i))).IsError()) schedx::Fail("send-failed", "send failed"); }
+      if (v == "selectqueuesock") (void) t->GetOwnerWakeupSocket();    // ... or after the Messages were queued (their signal bytes could not be sent: no sockets yet)
       if (t->StartInternalThread().IsError()) { schedx::Fail("start-failed", "StartInternalThread failed"); delete t; return; }
       if (v == "twosenders") { EchoThread * tp = t; int n = cfg.n; std::vector<int> * sb = &sentB; for (int i = 1; i <= n; i++) sb->push_back(100 + i); sender2 = schedx::Spawn([tp, n]() { for (int i = 1; i <= n; i++) (void) tp->SendMessageToInternalThread(MessageRef(new Message((uint32)(100 + i)))); }); }
-      if (v != "prequeue") for (int i = 1; i <= cfg.n; i++) { sentA.push_back(i); if (t->SendMessageToInternalThread(MessageRef(new Message((uint32)i))).IsError()) schedx::Fail("send-failed", "send failed"); }
+      if (v != "prequeue" && !(sel && v != "select")) for (int i = 1; i <= cfg.n; i++) { sentA.push_back(i); if (t->SendMessageToInternalThread(MessageRef(new Message((uint32)i))).IsError()) schedx::Fail("send-failed", "send failed"); }
       const size_t expect = sentA.size() + sentB.size();
       for (size_t i = 0; i < expect; i++) { int id = 0; if (!NextReply(*t, id, spurious)) break; replies.push_back(id); }
       if (sender2 >= 0) schedx::Join(sender2);
@@ -122,6 +151,7 @@ int main(int argc, char ** argv)
          if (std::string(variants[v]) == "restart" && n > 2) continue;
          Config c; c.sockets = (m == 0); c.variant = variants[v]; c.n = n; cfgs.push_back(ConfigToString(c));
       }
+      { const char * sv[] = {"select", "selectprequeue", "selectqueuesock", "selectsockqueue"}; for (int k = 0; k < 4; k++) { Config c; c.sockets = true; c.variant = sv[k]; c.n = 2; cfgs.push_back(ConfigToString(c)); } }
       if (!args.Thorough()) { Config c; c.sockets = true; c.variant = "basic"; c.n = 3; cfgs.push_back(ConfigToString(c)); c.sockets = false; cfgs.push_back(ConfigToString(c)); }
    }
    if (args.kv.count("freerun")) {
@@ -143,7 +173,7 @@ int main(int argc, char ** argv)
    }
    schedx::StopPool();
    total.exhaustive = !capped; total.bound_completed = capped ? -1 : opt.bound; if (capped && total.cap.empty()) total.cap = "deadline";
-   total.rule = verif::Fmt("every interleaving with <=%d preemptions of %u configurations = {socket-pair, wait-condition signalling} x {basic send/reply/shutdown, Messages queued before start, shutdown with Messages pending, start-shutdown-restart, a second sender thread} x Message count, on a real muscle::Thread under a scheduler owning every queue-lock, signal (send/Notify), blocking wait (socket/WaitCondition), spawn, exit and join point; one schedule = one execution of the real code; distinct = distinct (status, handled order, reply order)", opt.bound, (unsigned)cfgs.size());
+   total.rule = verif::Fmt("every interleaving with <=%d preemptions of %u configurations = {socket-pair, wait-condition signalling} x {basic send/reply/shutdown, Messages queued before start, shutdown with Messages pending, start-shutdown-restart, a second sender thread} x Message count + 4 configurations with an internal thread that select()s on its wake-up socket and polls the queue (send after start; queued before start; queued, sockets allocated, start; sockets allocated, queued, start), on a real muscle::Thread under a scheduler owning every queue-lock, signal (send/Notify), blocking wait (socket/WaitCondition), spawn, exit and join point; one schedule = one execution of the real code; distinct = distinct (status, handled order, reply order)", opt.bound, (unsigned)cfgs.size());
    res.parts.push_back(total);
    fprintf(stderr, "C11: configs=%u executions=%lu capped=%d violations=%u wall=%.1fs\n", (unsigned)cfgs.size(), execs, (int)capped, (unsigned)res.violations.size(), verif::NowS() - args.t0);
    return res.Write(args);
